@@ -1116,6 +1116,11 @@ def representatives():
     out.append(_rt([{"a": 1}, {"a": 1, "b": 2}, {"a": 2, "b": 3}], "dir"))
     out.append(_rt([{"a": 1}, {"a": 2, "b": 3}], "dir"))
     out.append(_rt(a("x/y", "x"), "dir"))
+    # leaf/node conflicts with other paths sorting in between ('.', ' ', '-' < '/'): a/1 | a/1.5, a/1 x | a/1/b/2
+    out.append(_rt([{"a": 1}, {"a": 1.5}, {"a": 1, "b": 2}, {"a": 1, "b": 3}], "dir"))
+    out.append(_rt([{"a": 1}, {"a": 1.5}, {"a": 1, "b": 2}, {"a": 1, "b": 3}], "zip"))
+    out.append(_rt([{"a": "x"}, {"a": "x y"}, {"a": "x-y"}, {"a": "x", "b": 2}], "tar"))
+    out.append(_rt(a("x", "x.5", "x/y", "x 1"), "dir"))
     out.append(_rt(a("", 1), "dir"))
     out.append(_rt(a("a b", "a.b", None), "zip", files=F))
     out.append(_rt([{"a": 1, "b": 1}, {"a": 1, "b": 2}, {"a": 2, "b": 1}], "dir", fmt("{a}/{{auto}}"), schema="string"))
